@@ -47,6 +47,8 @@ def flat(val):
 def observe(fam, obj, a):
     o, x = {}, {}
     todo = [(nm, getattr(obj, nm)) for nm in fam.names(obj)] + list(fam.calls(obj, a))
+    from props import netcommon
+    todo += netcommon.arg_calls(obj, already={t[0] for t in todo})
     for label, thunk in sorted(todo, key=lambda t: t[0]):
         try:
             f = flat(thunk())
